@@ -44,6 +44,10 @@ def shr (a n : Int) : Int := Int.shiftRight a n.toNat
 /-- Python `a << n` for `n ≥ 0` -/
 def shl (a n : Int) : Int := a * (2 : Int) ^ n.toNat
 
+/-- shifts whose count comes from data: `ValueError: negative shift count` -/
+def shlE (a n : Int) : Except String Int := if n < 0 then .error "ValueError" else .ok (shl a n)
+def shrE (a n : Int) : Except String Int := if n < 0 then .error "ValueError" else .ok (shr a n)
+
 /-- Python `a // b` (floor division) and `a % b` (sign of the divisor) -/
 def fdiv (a b : Int) : Int := Int.fdiv a b
 def fmod (a b : Int) : Int := Int.fmod a b
@@ -99,5 +103,48 @@ def fuelOfInt (x : Int) : Nat := x.natAbs
 def fuelOfList {α : Type} (xs : List α) : Nat := xs.length
 
 def boolToInt (b : Bool) : Int := if b then 1 else 0
+
+/-- `s * n` for a `str` -/
+def strRepeat (s : List Char) (n : Int) : List Char := (List.replicate n.toNat s).flatten
+
+/-- `int(s, 2)` for a string of '0' / '1' characters (no sign, no prefix, no underscores: the only forms the
+translated code produces); anything else, and the empty string, is ValueError -/
+def intOfBin (s : List Char) : Except String Int :=
+  if s.isEmpty then .error "ValueError"
+  else if s.all (fun c => c == '0' || c == '1') then
+    .ok (Int.ofNat (s.foldl (fun acc c => 2 * acc + (if c == '1' then 1 else 0)) 0))
+  else .error "ValueError"
+
+/-- `s[i]` for a `str`: a one-character string; IndexError when out of range -/
+def strIdx (s : List Char) (i : Int) : Except String (List Char) :=
+  match getIdx? s i with
+  | some c => .ok [c]
+  | none => .error "IndexError"
+
+/-- `int(s)` for a string of decimal digits (the only form the translated code produces); else ValueError -/
+def intOfDec (s : List Char) : Except String Int :=
+  if s.isEmpty then .error "ValueError"
+  else if s.all (fun c => c.isDigit) then
+    .ok (Int.ofNat (s.foldl (fun acc c => 10 * acc + (c.toNat - 48)) 0))
+  else .error "ValueError"
+
+/-- hexadecimal digits of `n`, most significant first (`0 ↦ [0]`), as `hex(n)[2:]` -/
+def hexDigitsAux : Nat → Nat → List Nat → List Nat
+  | 0, _, acc => acc
+  | fuel + 1, n, acc => if n < 16 then n :: acc else hexDigitsAux fuel (n / 16) (n % 16 :: acc)
+
+def hexDigits (n : Nat) : List Nat := hexDigitsAux (n + 1) n []
+
+def pairUp : List Nat → List Int
+  | a :: b :: r => Int.ofNat (16 * a + b) :: pairUp r
+  | _ => []
+
+/-- `binascii.unhexlify(hex(x)[4:].rstrip('L'))`: the octets of `x` behind its two leading hexadecimal digits (the idiom
+of a 0x80 sentinel octet); an odd number of remaining digits is `binascii.Error` -/
+def unhexAfter4 (x : Int) : Except String (List Int) :=
+  if x < 0 then .error "Error"      -- hex(-n) = '-0x…': the slice keeps a hex prefix character, unhexlify fails
+  else
+    let ds := (hexDigits x.toNat).drop 2
+    if ds.length % 2 = 1 then .error "Error" else .ok (pairUp ds)
 
 end Py
